@@ -4,6 +4,8 @@ from the current sources with `ast` and emitted as Lean data in Gen/Api.lean.
   keepContourDesign / keepContourDomains   the mutable default argument objects
   keepContourStores                        number of statements that could mutate a `keep_contour` object
   heightWriters                            every `<expr>.H = ...` assignment in the package, as "file:function"
+  componentWriters                         every assignment to an attribute of a (possibly shared) component object
+                                           (`<...>.sim_params.x = `, `.pipe.k = `, `.grout.k = `, `_borehole.r_b -= ` ...)
   designCtorArgs                           per Design* call in GHEManager.set_design: the argument expressions
   findDesignRequired                       the slots tested by `all([...])` in GHEManager.find_design
   findDesignCalls                          the calls made by find_design after the test, in source order
@@ -153,6 +155,24 @@ def main(write, HEADER, parse, PKG):
                         if isinstance(s, ast.Attribute) and s.attr == "H":
                             writers.append(f"{p.name}:{q}:{_expr(s)}")
     out.append(f"def heightWriters : List String := {_slist(writers)}")
+
+    # ------------------------------------------------------------ writers of attributes of the shared component objects
+    # (SimulationParameters, Pipe, Grout, Soil, GHEFluid, geometric constraints, borehole other than H): `<...>.<comp>.<attr> = ...`
+    comps = {"sim_params", "_simulation_parameters", "pipe", "_pipe", "grout", "_grout", "soil", "_soil", "fluid", "_fluid",
+             "geometric_constraints", "_geometric_constraints", "geometricConstraints", "borehole", "_borehole", "b"}
+    cw = []
+    for p in sorted(PKG.glob("*.py")):
+        tree = ast.parse(p.read_text(), filename=str(p))
+        for q, fn in _functions(tree):
+            for n in _own_nodes(fn):
+                tg = n.targets if isinstance(n, ast.Assign) else [n.target] if isinstance(n, (ast.AugAssign, ast.AnnAssign)) else []
+                for t in tg:
+                    for s_ in ([t] if not isinstance(t, ast.Tuple) else t.elts):
+                        if isinstance(s_, ast.Attribute) and s_.attr != "H" and isinstance(s_.value, (ast.Attribute, ast.Name)):
+                            owner = s_.value.attr if isinstance(s_.value, ast.Attribute) else s_.value.id
+                            if owner in comps:
+                                cw.append(f"{p.name}:{q}:{_expr(s_)}")
+    out.append(f"def componentWriters : List String := {_slist(cw)}")
 
     # ------------------------------------------------------------ manager: set_design, find_design, setters
     manager = parse("manager.py")
